@@ -224,7 +224,7 @@ package runner
 //@   callsite Add
 //@     requires #C12.registers-only-before-cancellation !r.canceling && calls(Add) == 0 && arg0 == 1
 //@   callsite Err
-//@     assume old(r.canceling) ==> result != nil // Cancel cancels the context under the write lock before `canceling` becomes visible to a reader: a cancelled context reports an error for ever
+//@     assume old(r.canceling) ==> result != nil // Cancel cancels the context while it still holds the write lock (checked: Cancel's effect clause `lock-held at funcvalue`), so a reader that sees `canceling` sees a cancelled context; a cancelled context reports an error for ever
 //@   ensures #C07.success-records-zero result == nil && !t.Skipped && !old(t.Errored) ==> t.ExitCode == 0 && !t.Errored
 //@   ensures #C07.execute-failure-reported calls(execute) == 1 && gExecErr != nil ==> result != nil
 //@   ensures #C06.skipped-ran-nothing-else calls(checkTaskCondition) == 1 && !gCondMet && gCondErr == nil ==> result == nil && t.Skipped && calls(before) == 0 && calls(CompileTask) == 0 && calls(execute) == 0 && calls(after) == 0
@@ -329,6 +329,9 @@ package runner
 //@   ensures #C12.marked-runners-are-cancelled forall x *TaskRunner :: x != nil && x.canceling ==> ctxCancelled[x]
 //@   ensures #C12.context-cancelled-at-most-once (old(r.canceling) ==> calls(cancelFunc) == 0) && calls(cancelFunc) <= 1
 //@   effect no lock-held at Wait
+// the context is cancelled while the write lock is still held: a reader that sees `canceling` sees a cancelled
+// context (this is what Run's "a refused run returns an error" rests on)
+//@   effect lock-held at funcvalue
 //@   callsite funcvalue:cancelFunc
 //@     ghost ctxCancelled[r] = true
 //@ func NewTaskRunner
